@@ -14,8 +14,6 @@ import (
 
 const DefaultBudget = 2_000_000
 
-func StepsNow() int64 { return zygo.Verif.Steps }
-
 // PanicSite returns the innermost frame of package zygo on the current
 // (panicking) stack; call it from a deferred function.
 func PanicSite(skip int) string {
